@@ -51,6 +51,7 @@ def run(chk, repo):
     r2_algebra(chk, repo, d)
     r4_formats(chk, repo, d)
     r5_signext(chk, repo, d)
+    r5_endian(chk, repo, d)
     r6_views(chk, repo, d)
     r7_constant(chk, repo, d)
     r8_signed_div(chk, repo, d)
@@ -523,6 +524,34 @@ def r4_formats(chk, repo, d):
            ys[0], "; ".join(fails[:4]) or "10 letters tabulated")
 
 
+    # signedness and fixed-point-ness a memory operand reports: they select
+    # signed/unsigned jumps and shifts and the fixed-point scaling
+    fails = []
+    fmts = list(LETTERS) + ["x"] + [p + c for p in "<>!" for c in "HIQhiq"]
+    for fmt in fmts:
+        m = Obj(mc, {"fmt": fmt})
+        for attr, want in (("signed", fmt[-1] in "bhiqx"),
+                           ("fixed", fmt == "x")):
+            try:
+                r = ev.getattr(m, attr)
+            except (Raised, Unknown) as e:
+                fails.append(f"{fmt!r}.{attr}: {e}")
+                continue
+            if bool(r) != want:
+                fails.append(f"fmt {fmt!r}: {attr} is {bool(r)}")
+    for fmt in ((3, 1), (0, 8)):
+        try:
+            if bool(ev.getattr(Obj(mc, {"fmt": fmt}), "signed")):
+                fails.append(f"bit field {fmt!r} is signed")
+        except (Raised, Unknown) as e:
+            fails.append(f"{fmt!r}.signed: {e}")
+    chk.ob("R01.4", E + "Memory.signed", "a memory operand is signed iff its "
+           "format letter is (b h i q and the fixed-point x), fixed iff x",
+           not fails, mc.methods.get("signed", mc.node),
+           "; ".join(fails[:4]) or f"{len(fmts) + 2} formats tabulated: "
+           "signedness selects JSLT/JSGT.. and ARSH")
+
+
 # ------------------------------------------------------------------ R01.5
 def r5_signext(chk, repo, d):
     chk.doc("R01.5", "sign extension after a load: guard, shift amount, "
@@ -630,6 +659,123 @@ def r5_signext(chk, repo, d):
                    "src, offset, 0)", ld))
     chk.ob("R01.5", E + "Expression.load", "load is LDX|MEM|size(fmt)", ok,
            ld, "the load instruction carries the format's size modifier")
+
+
+class _RegVal:
+    """a register view's value with the shifts applied to it"""
+    def __init__(self, arr, no, trace=()):
+        self.arr, self.no, self.trace = arr, no, tuple(trace)
+
+    def __lshift__(self, k):
+        return _RegVal(self.arr, self.no, self.trace + (("<<", k),))
+
+    def __rshift__(self, k):
+        return _RegVal(self.arr, self.no, self.trace + ((">>", k),))
+
+
+class _RegArr:
+    _sa_recorder = True
+
+    def __init__(self, name, log):
+        self.name, self.log = name, log
+
+    def __getitem__(self, no):
+        return _RegVal(self.name, no)
+
+    def __setitem__(self, no, v):
+        self.log.append(("set", self.name, no, v))
+
+
+def r5_endian(chk, repo, d):
+    """a load with an explicit byte order: the swap instruction
+    zero-extends, so a signed value has to be sign-extended after it.
+    Decided by abstract execution: the operand Memory.calculate builds for
+    an endian format is constructed by the evaluator, and its
+    calculate_unary is run on recording register views, for every endian
+    format and both widths."""
+    ev = d.ev
+    mc = repo.cls(E + "Memory")
+    se = repo.cls(E + "SwitchEndian")
+    cal = repo.func(E + "Memory.calculate")
+    items = [(w, it) for w in walk_no_nested(cal) if isinstance(
+        w, (ast.With,)) for it in w.items if match(
+            "$x.calculate(dst, long, force)", it.context_expr) is not None
+        and any(t and match("self.has_endian()", e) is not None
+                for e, t in path_facts(w))]
+    need(len(items) == 1, "Memory.calculate: the byte-swapping branch was "
+                          "not found")
+    sx = match("$x.calculate(dst, long, force)",
+               items[0][1].context_expr)["x"]
+    # plain statements of the branch that run before the load is issued
+    holder = items[0][0]._parent
+    blk = next((getattr(holder, f_) for f_ in ("body", "orelse")
+                if items[0][0] in getattr(holder, f_, [])), [])
+    pre = blk[:blk.index(items[0][0])] if items[0][0] in blk else []
+    cu = se.methods.get("calculate_unary")
+    need(cu is not None, "SwitchEndian.calculate_unary vanished")
+    chk.analysed(E + "SwitchEndian.calculate_unary")
+    mem = ev.enum_members(repo.cls(E + "Opcode"))
+    fails = []
+    rows = 0
+    for fmt in [p + c for p in "<>!" for c in "HIQhiq"]:
+        for long in (True, False):
+            log = []
+            ebpf = Obj(None, {"append": ("hook", lambda *a: log.append(
+                ("append",) + a)), "sr": _RegArr("sr", log),
+                "sw": _RegArr("sw", log)})
+            m = Obj(mc, {"fmt": fmt, "ebpf": ebpf,
+                         "address": Opaque("address")})
+            try:
+                ev1 = Evaluator(repo, cal._module, mc)
+                env1 = {"self": m, "dst": 3, "long": long, "force": False}
+                ev1.run_block(pre, env1)
+                sw = ev1.eval(sx, env1)
+                if not (isinstance(sw, Obj) and sw.ci is not None
+                        and repo.is_subclass(sw.ci, E + "SwitchEndian")):
+                    fails.append(f"{fmt!r}: the operand built for the load "
+                                 f"is {sw!r}, not a byte swap")
+                    continue
+                Evaluator(repo, cu._module, se).call_function(
+                    cu, [sw, 3, long], cls=se)
+            except (Unknown, Raised) as e:
+                raise AnalysisError(f"R01.5: byte-swapped load of {fmt!r} "
+                                    f"cannot be evaluated: {e}")
+            rows += 1
+            bits = calcsize(fmt[-1]) * 8
+            width = 64 if long else 32
+            tag = f"{fmt!r} computed in {width} bits"
+            inner = sw.fields.get("arg")
+            if not (isinstance(inner, Obj) and isinstance(
+                    inner.fields.get("fmt"), str) and calcsize(
+                        inner.fields["fmt"][-1]) * 8 == bits):
+                fails.append(f"{tag}: raw bytes loaded as "
+                             f"{getattr(inner, 'fields', {}).get('fmt')!r}")
+            apps = [e for e in log if e[0] == "append"]
+            want_op = "LE" if fmt[0] == "<" else "BE"
+            if len(apps) != 1 or not isinstance(apps[0][1], EnumVal) or \
+                    apps[0][1].name != want_op or apps[0][2:] != (
+                        3, 0, 0, bits):
+                fails.append(f"{tag}: swap emitted as {apps}")
+            sets = [e for e in log if e[0] == "set"]
+            if fmt[-1].islower() and bits < width:
+                k = width - bits
+                ok = len(sets) == 1 and sets[0][1] == (
+                    "sr" if long else "sw") and sets[0][2] == 3 and \
+                    isinstance(sets[0][3], _RegVal) and \
+                    sets[0][3].no == 3 and sets[0][3].arr == sets[0][1] \
+                    and sets[0][3].trace == (("<<", k), (">>", k))
+                if not ok:
+                    fails.append(f"{tag}: signed value not sign-extended "
+                                 f"after the swap")
+            elif sets:
+                fails.append(f"{tag}: unexpected register update after the "
+                             f"swap")
+    chk.floor("R01.5", "byte-swapped loads tabulated", rows, 36)
+    chk.ob("R01.5", E + "SwitchEndian.calculate_unary", "a byte-swapped "
+           "signed value narrower than the computation is sign-extended "
+           "after the swap (the swap zero-extends)", not fails, cu,
+           "; ".join(fails[:3]) or f"{rows} rows: 18 endian formats x 2 "
+           "widths, the operand as Memory.calculate builds it")
 
 
 # ------------------------------------------------------------------ R01.6
@@ -778,12 +924,14 @@ def r9_width(chk, repo, d):
     for ci in repo.classes.values():
         if ci.module.name != "ebpfcat.ebpf":
             continue
-        f = ci.methods.get("calculate")
-        if f is not None and "long" in param_names(f):
-            impls.append((ci, f))
-    chk.floor("R01.9", "calculate implementations", len(impls), 8)
+        # calculate() and every other code-emitting method that is told a
+        # width (get_address, calculate_unary, contains-free helpers ...)
+        for name, f in ci.methods.items():
+            if isinstance(f, FUNC) and "long" in param_names(f):
+                impls.append((ci, f))
+    chk.floor("R01.9", "methods that are told a width", len(impls), 12)
     for ci, f in impls:
-        sym = ci.qualname + ".calculate"
+        sym = ci.qualname + "." + f.name
         chk.analysed(sym)
         cfg = CFG(f)
         rd = ReachingDefs(cfg)
